@@ -33,7 +33,8 @@ class Coupled:
     def __init__(self, cfg, time=0.0):
         import sopht.simulator as sps
 
-        c = simcfg.normalise(cfg)
+        self.io_kind = cfg.get("io_kind", "field")
+        c = simcfg.normalise({k: v for k, v in cfg.items() if k != "io_kind"})
         self.c = c
         self.dim = simcfg.dim_of(c["kind"])
         dx = lagcomm.DXS[0]
@@ -94,8 +95,16 @@ class Coupled:
     def ios(self):
         import sopht.utils as spu
 
-        io = spu.EulerianFieldIO(position_field=self.sim.position_field, eulerian_fields_dict={"vorticity": self.sim.vorticity_field, "velocity": self.sim.velocity_field})
-        fio = spu.IO(dim=self.dim, real_dtype=self.real_t)
+        if self.io_kind == "plain":
+            # the base IO class with its DEFAULT precision (float64), whatever the simulator's precision is
+            io = spu.IO(dim=self.dim)
+            dx = float(self.sim.dx)
+            io.define_eulerian_grid(origin=np.full(self.dim, dx / 2), dx=np.full(self.dim, dx), grid_size=np.array(self.c["shape"]))
+            io.add_as_eulerian_fields_for_io(vorticity=self.sim.vorticity_field, velocity=self.sim.velocity_field)
+            fio = spu.IO(dim=self.dim)
+        else:
+            io = spu.EulerianFieldIO(position_field=self.sim.position_field, eulerian_fields_dict={"vorticity": self.sim.vorticity_field, "velocity": self.sim.velocity_field})
+            fio = spu.IO(dim=self.dim, real_dtype=self.real_t)
         fio.add_as_lagrangian_fields_for_io(lagrangian_grid=self.inter.forcing_grid.position_field, lagrangian_grid_name="body",
                                             position_mismatch=self.inter.lag_grid_position_mismatch_field, velocity_mismatch=self.inter.lag_grid_velocity_mismatch_field)
         return io, fio
@@ -168,7 +177,8 @@ class CoupledRod(Coupled):
         import elastica as ea
         import sopht.simulator as sps
 
-        c = simcfg.normalise(cfg)
+        self.io_kind = cfg.get("io_kind", "field")
+        c = simcfg.normalise({k: v for k, v in cfg.items() if k != "io_kind"})
         self.c = c
         self.dim = simcfg.dim_of(c["kind"])
         dx = lagcomm.DXS[0]
@@ -278,7 +288,7 @@ def _cmp(fails, tag, got, want, eps, ctx):
 
 
 def case_resume(cfg, K, poisons, seed):
-    c = simcfg.normalise({k: v for k, v in cfg.items() if k != "body"})
+    c = simcfg.normalise({k: v for k, v in cfg.items() if k not in ("body", "io_kind")})
     eps = float(np.finfo(np.dtype(c["dtype"]).type).eps)
     d = _scratch()
     fails = []
@@ -408,11 +418,14 @@ def run(r) -> None:
     quick = r.tier == "quick"
     K = 4 if quick else 6
     cases = []
-    ns = {"stream": [True, False], "width": [2, 0, 1, 3], "dtype": ["float64", "float32"], "params": [[1e-2, 5e-2, 1.7], [1e-2, 5e-3, 1.0]]}
+    ns = {"stream": [True, False], "width": [2, 0, 1, 3], "dtype": ["float64", "float32"], "io_kind": ["field", "plain"], "params": [[1e-2, 5e-2, 1.7], [1e-2, 5e-3, 1.0]]}
     lat = {"ns2d": ns, "ns3d": {**ns, "filter": [None, ["multiplicative", 1], ["convolution", 2], ["multiplicative", 2]], "poisson": ["greens", "fastdiag"]}}
     for kind, axes in lat.items():
         for i, pt in enumerate(explore.lattice(axes, 1 if quick else 2)):
             cases.append(dict(cfg={"kind": kind, **pt}, K=K, poisons="each" if i == 0 or (not quick and i < 6) else "all", seed=r.seed))
+    # the base IO class with default (double) precision on single-precision simulators, and vice versa
+    for kind in ("ns2d", "ns3d"):
+        cases.append(dict(cfg={"kind": kind, "dtype": "float32", "io_kind": "plain", "stream": True, "params": [1e-2, 5e-2, 1.7]}, K=K, poisons="all", seed=r.seed))
     # Cosserat rods stepped by PyElastica (FlowForces inside the body stepper), edge grid in 2-D, surface grid in 3-D
     for kind in ("ns2d", "ns3d"):
         for dt_ in (("float64",) if quick else ("float64", "float32")):
